@@ -61,19 +61,25 @@ Proof.
 Qed.
 
 (* ---- the critical section of precommit ---- *)
+Lemma set_offset_drops s : drops (s_ptls s) (s_txlog s) (s_txlog (tl_set_offset s)).
+Proof.
+  sp. rewrite <- (firstn_skipn (N.to_nat (s_tlnf s)) (s_txlog s)) at 1.
+  apply drops_app. apply drops_filter. intros w _ F.
+  apply negb_false_iff, N.leb_le in F. exact F.
+Qed.
+
 Lemma Inv_set_offset s : Inv s -> Inv (tl_set_offset s).
 Proof.
-  intros []. constructor; unfold live, clogC in *; sp; auto.
-  - apply chain_log_filter; auto. intros w _ F.
-    apply negb_false_iff, andb_true_iff in F. destruct F as [F _]. apply N.leb_le in F. exact F.
-  - apply chain_log_filter; auto. intros w _ F.
-    apply negb_false_iff, andb_true_iff in F. destruct F as [F _]. apply N.leb_le in F. exact F.
-  - apply Forall_forall. intros w Hin. apply filter_In in Hin. destruct Hin as [Hin _].
+  intros []. pose proof (set_offset_drops s) as Hd.
+  constructor; unfold live, clogC in *; auto; try (sp; auto; fail).
+  - eapply (chain_log_drops H); [exact i_chainB|exact Hd].
+  - eapply (chain_log_drops H); [exact i_chainC|exact Hd].
+  - apply Forall_forall. intros w Hin. eapply drops_in in Hin; [|exact Hd].
     eapply Forall_forall in i_wf; eauto.
 Qed.
 
 Lemma Inv_write_only s w :
-  Inv s -> wr_wf H w -> s_ptls s <= w_off w -> Inv (upd_txlog s (w :: s_txlog s)).
+  Inv s -> wr_wf H w -> s_ptls s <= w_off w -> Inv (tl_append s w).
 Proof.
   intros [] Hw L. constructor; unfold live, clogC in *; sp; auto.
   - apply chain_log_cons; auto.
@@ -87,13 +93,11 @@ Proof. apply Inv_ext; reflexivity. Qed.
 
 Lemma tl_keep_set_offset B s : B <= s_ptls s -> tl_keep B s (tl_set_offset s).
 Proof.
-  intros L off x R E. sp. apply tl_read_filter_keep; auto.
-  intros w _ F. apply negb_false_iff, andb_true_iff in F. destruct F as [F _]. apply N.leb_le in F. lia.
+  intros L off x R E. eapply tl_read_drops; [apply set_offset_drops|exact R|lia].
 Qed.
 
-Lemma tl_keep_cons B s w : B <= w_off w -> tl_keep B s (upd_txlog s (w :: s_txlog s)).
+Lemma tl_keep_cons B s w : B <= w_off w -> tl_keep B s (tl_append s w).
 Proof. intros L off x R E. sp. apply tl_read_cons_keep; auto. lia. Qed.
-
 
 (* effect of the critical section on the live chain, the AHT and the commit waiters *)
 Definition fx_fail (s s4 : state) : Prop :=
@@ -141,19 +145,19 @@ Proof.
   { split; [apply clog_keep_same; reflexivity|].
     eapply tl_keep_trans; [apply K1|]. apply tl_keep_set_offset. apply N.le_refl. }
   assert (N2 : forall w, In w (s_txlog s1) -> In w (s_txlog s) \/ w_off w = s_ptls s).
-  { intros w0 Hin. left. unfold s1 in Hin. sp. apply filter_In in Hin. tauto. }
+  { intros w0 Hin. left. eapply drops_in; [apply (set_offset_drops s0)|exact Hin]. }
   assert (F2 : fx_fail s s1 \/ fx_ok s s1) by (left; repeat split).
   destruct (if 0 <? bltxid then aht_root_tolerant H (s_aht s1) bltxid else Ok stale) as [blroot|e|] eqn:Eroot;
     [|exists s1; tauto|exists s1; tauto].
   destruct (N.leb_spec (s_inmem s1 + 1) bltxid) as [Lb|Lb]; [exists s1; tauto|].
   match goal with |- context [alh_of H ?h] => set (hdr := h) end.
   destruct (alh_of H hdr) as [alh|e|] eqn:Ealh; [|exists s1; tauto|exists s1; tauto].
-  match goal with |- context [upd_txlog s1 (?w0 :: _)] => set (w := w0) in * end.
+  match goal with |- context [tl_append s1 ?w0] => set (w := w0) in * end.
   assert (Hwf : wr_wf H w).
   { unfold wr_wf, w. cbn [w_rec r_hdr r_alh]. split; [exact Ealh|]. unfold hdr. cbn [h_bltxid h_id]. lia. }
   assert (Hoff : s_ptls s1 <= w_off w) by (unfold w; cbn [w_off]; lia).
   pose proof (Inv_write_only s1 w HI1 Hwf Hoff) as HI2.
-  set (s2 := upd_txlog s1 (w :: s_txlog s1)) in *.
+  set (s2 := tl_append s1 w) in *.
   assert (K3 : clog_keep s s2 /\ tl_keep (s_ptls s) s s2).
   { split; [apply clog_keep_same; reflexivity|].
     eapply tl_keep_trans; [apply K2|]. apply tl_keep_cons. apply N.le_refl. }
